@@ -147,7 +147,11 @@ func (c *Ctx) World(setup func(w *kernel.World)) (out kernel.Outcome, w *kernel.
 			}
 			if c.Trace {
 				for _, te := range w.Trace {
-					c.Logf("step %d %s @%s", te.Step, te.Task, te.Site)
+					if te.Task == "fault" {
+						c.Logf("step %d FAULT %s", te.Step, te.Site)
+					} else {
+						c.Logf("step %d %s @%s", te.Step, te.Task, te.Site)
+					}
 				}
 			}
 		})
